@@ -68,6 +68,11 @@ def build_program_case(rng, n_blocks=None, allow=None, main_modes=('usr', 'sys',
                     rets['svc'] = 'srs_rfe'          # the SVC handler now shares its (descending) stack with an interrupt handler: no ascending frames
     low, hinfo = P.build_low(te, rets)
     allow = allow or ('alu', 'mem', 'stack', 'loop', 'cond', 'svc', 'udf', 'it', 'multi', 'smc')
+    hyp_route = extra_sys is None and cps_returns and rng.random() < 0.12
+    tge = hyp_route and mode == 'usr' and rng.random() < 0.6
+    if tge:
+        # HCR.TGE: SVC from Non-secure User mode is taken to Hyp mode (Hyp Trap vector, return with ERET); no UDF/SMC in these programs
+        allow = tuple(a for a in allow if a not in ('udf', 'smc'))
     mg = P.MainGen(rng, thumb, mode != 'usr', allow=allow, sec=cfg['have_security_ext'])
     words = mg.generate(n_blocks or rng.choice([6, 12, 20]))
     code = emit(words, thumb)
@@ -76,16 +81,15 @@ def build_program_case(rng, n_blocks=None, allow=None, main_modes=('usr', 'sys',
     G.set_data(devices[1], 0, code)
     G.set_data(devices[2], 0x400, bytes(rng.getrandbits(8) for _ in range(0x100)))
     e_main, ee = int(rng.random() < 0.25), int(rng.random() < 0.3)      # big-endian data in the main program / in the handlers
-    hyp_route = extra_sys is None and cps_returns and rng.random() < 0.12
     if hyp_route:
         # Virtualization Extensions: a Non-secure main program whose physical IRQ and/or FIQ are routed to Hyp mode (HCR.IMO/FMO); the
         # Hyp handlers sit behind HVBAR and return with ERET
         cfg.update(have_security_ext=True, have_virt_ext=True, memory_system_architecture='VMSA')
-        extra_sys = {'scr': 1 | 1 << 4 | 1 << 5, 'hcr': rng.choice([1 << 4, 1 << 3, 3 << 3]), 'hsctlr': 1 << 30 | ee << 25, 'hvbar': P.HYP_BASE}
+        extra_sys = {'scr': 1 | 1 << 4 | 1 << 5, 'hcr': rng.choice([1 << 4, 1 << 3, 3 << 3]) | int(tge) << 27, 'hsctlr': 1 << 30 | ee << 25, 'hvbar': P.HYP_BASE}
     regs = P.main_state(rng, cfg, mode, thumb, te, extra_sys, e=e_main, ee=ee)
     if hyp_route:
         extra_sys = None
-        rets['hyp_irq'] = rets['hyp_fiq'] = 'eret'
+        rets['hyp_irq'] = rets['hyp_fiq'] = rets['hyp_svc'] = 'eret'
     if extra_sys is None and not hyp_route and mode == 'usr' and rng.random() < 0.5:
         # MPU on: the handler stacks are privileged-only, the User program keeps access to its own stack, data and code.  A return
         # sequence must therefore finish every access to the handler stack BEFORE it drops to User mode
@@ -101,6 +105,9 @@ def build_program_case(rng, n_blocks=None, allow=None, main_modes=('usr', 'sys',
         if scr & 1 and not scr & 4:
             scr |= 1 << 4        # Non-secure FIQ handled in FIQ mode needs SCR.FW=1, otherwise the entry cannot mask F and the line re-fires forever
         regs['sys']['scr'] = scr
+    elif cfg['have_security_ext'] and not hyp_route and rng.random() < 0.5:
+        # a Non-secure main program whose exceptions are all handled in Non-secure state (SCR.AW seeded; FW=1, see above)
+        regs['sys']['scr'] = 1 | 1 << 4 | rng.getrandbits(1) << 5
     core = {'config': cfg, 'devices': devices, 'regs': regs, 'done_pc': G.CODE + len(code) - (2 if thumb else 4)}
     meta = {'thumb': thumb, 'te': te, 'mode': mode, 'returns': rets, 'main_lo': G.CODE, 'main_hi': G.CODE + len(code),
             'handlers': {k: list(v) for k, v in hinfo.items()}, 'e': e_main, 'ee': ee}
@@ -114,13 +121,10 @@ def fault_free_ticks(core, meta, cap=3000):
 
 
 def gen_irq_return(rng):
-    for _ in range(20):
-        core, meta = build_program_case(rng, cps_returns=True)
-        n = fault_free_ticks(core, meta)
-        if n is not None:
-            break
-    else:
-        raise RuntimeError('no terminating main program generated')
+    # the generated programs terminate by construction; the fault-free length only places the faults.  A program that does not finish its
+    # fault-free run (e.g. because a synchronous exception never returns) is kept and reported by the run, never regenerated
+    core, meta = build_program_case(rng, cps_returns=True)
+    n = fault_free_ticks(core, meta) or 300
     events = []
     nf = rng.choice([0, 1, 1, 2, 3, 5, 8])
     for _ in range(nf):
@@ -165,7 +169,8 @@ class ReturnChecker:
         self.completed = set()
 
     def on_entry(self, kind, exp, s):
-        resume = {'irq': s['pc'], 'fiq': s['pc'], 'svc': exp['lr'], 'und': exp['lr'], 'smc': exp['lr'], 'dabt': s['pc']}.get(kind)
+        link = exp['lr'] if exp['lr'] is not None else exp.get('elr')          # entries to Hyp mode keep their return address in ELR_hyp
+        resume = {'irq': s['pc'], 'fiq': s['pc'], 'svc': link, 'und': link, 'smc': link, 'dabt': s['pc']}.get(kind)
         if kind in ('svc', 'und', 'smc') and resume is not None:
             resume &= ~1
         if kind == 'und' and self.meta['returns'].get('und') == 'patch_retry':
@@ -231,7 +236,7 @@ def run_irq_return(case):
     b = bB
     b.violations = bA.violations + bB.violations
     if not bA.cores[0].finished:
-        b.violate('harness', 'irq_return', 'clean_run_did_not_finish', 'the fault-free run did not reach its done marker')
+        b.violate('irq_return.liveness', 'fault_free', 'fault_free_run_did_not_finish', 'the run without interrupts did not reach its done marker within %d ticks (its own SVC/UDF/SMC entries and returns are the only exceptions in it)' % bA.tick)
         return b, bA
     if b.violations:
         return b, bA
@@ -562,10 +567,7 @@ def gen_hints(rng):
         core = {'config': cfg, 'devices': G.std_devices(high=False), 'regs': regs, 'words': [], 'force': None, 'no_poke': []}
         return {'scenario': 'hints', 'sub': 'step', 'cores': [core], 'seq': seq, 'thumb': thumb, 'events': [], 'max_ticks': 10 ** 6, 'stop_at_done': False}
     # wake-up / liveness: main = prologue ; WFI|WFE ; epilogue ; b .   with an interrupt some ticks later
-    for _ in range(20):
-        core, meta = build_program_case(rng, n_blocks=4, allow=('alu', 'mem', 'stack'))
-        if fault_free_ticks(core, meta) is not None:
-            break
+    core, meta = build_program_case(rng, n_blocks=4, allow=('alu', 'mem', 'stack'))
     thumb = meta['thumb']
     hint = rng.choice(['wfi', 'wfi', 'wfe'])
     n = 3 if hint == 'wfi' else 2
